@@ -197,8 +197,8 @@ def make_lock_classes(get_sched, locks):
         def acquire(self, *a, **k):
             me = current_name()
             s = get_sched()
-            if s is not None and me in s.th and is_boundary(self, me):
-                s.boundary('acq_' + self.name, lambda: self.holder is None)
+            if s is not None and me in s.th and (is_boundary(self, me) or self.holder is not None):
+                s.boundary('acq_' + self.name, lambda: self.holder is None)     # park (also when contended at a non-boundary acquire)
             if self.holder is not None:
                 raise LockHeld('%s lock acquired by %s while held by %s' % (self.name, me, self.holder))
             self.holder = me
@@ -224,7 +224,7 @@ def make_lock_classes(get_sched, locks):
         async def acquire(self):
             me = current_name()
             s = get_sched()
-            if s is not None and me in s.th and is_boundary(self, me):
+            if s is not None and me in s.th and (is_boundary(self, me) or self.holder is not None):
                 await s.aboundary('acq_' + self.name, lambda: self.holder is None)
             if self.holder is not None:
                 raise LockHeld('%s lock acquired by %s while held by %s' % (self.name, me, self.holder))
